@@ -68,6 +68,7 @@ class IntervalTree:
         # We want to return the indices of the intervals instead of their
         # actual bounds. But the original indices will be lost due resorting.
         # Hence, we add the original indices to the intervals themselves.
+        self.size = intervals.shape[0]
         indices = np.arange(intervals.shape[0]).reshape(intervals.shape[0], 1)
         indexed_intervals = np.hstack([intervals, indices])
         # Sort the rows by their left end points (np.sort(..., axis=0) would
@@ -151,7 +152,8 @@ class IntervalTree:
         if (check_extreme
                 and IntervalTree.interval_contains(query_interval, self.left)
                 and IntervalTree.interval_contains(query_interval, self.right)):
-            return []  # TODO: Return all intervals
+            # Every interval of this tree lies within the query interval:
+            return list(range(self.size))
 
         # Let's start with the centered intervals
         intervals = [int(interval[2]) for interval in node.center
